@@ -18,11 +18,13 @@
 // On the real kernel the window is a few dozen instructions wide while the poller needs a wake-up
 // from epoll_wait to get through it, so the dialing goroutine has to lose the CPU inside the
 // window. The test below is therefore a stress test: it dials a loopback listener many times from
-// an oversubscribed process with a dial timeout of 200 ms (a loopback connect takes microseconds,
-// so the timeout itself never expires legitimately), never writes, and counts connections that
-// (a) were reported established and open by their dial callback and (b) were closed with
-// ErrDialTimeout more than half a dial timeout LATER (a timeout that merely races with the
-// completion of the connect closes before or at the callback, not 100+ ms after it). It needs
+// an oversubscribed process with a dial timeout of 400 ms, never writes, and counts connections
+// (a) whose dial callback reported success on an open connection LESS THAN HALF a dial timeout
+// after DialAsyncTimeout was called - so the dial timer, which is armed inside that call, cannot
+// have expired by then, however starved the process is - and (b) that were closed with
+// ErrDialTimeout afterwards. (A dial timeout that expires while the completion of the connect is
+// being processed can also close a connection right after a successful callback; that coincidence
+// needs the callback to come a full timeout after the call and is not counted.) It needs
 // loopback networking:
 //
 //	cd /verif && GOFLAGS=-mod=mod GOPROXY=off unshare -rn bash -c 'ip link set lo up; go test -count=1 -timeout 10m ./notes/repro/C16_dial_timer_armed_after_connect/'
@@ -31,7 +33,8 @@
 // proves nothing either way); a hit FAILS. Deterministic evidence is the replay file of the
 // check (bin/check C16 quick -replay replays/C16-stale-dial-timer_origin=dialT_armed=after-connect.json).
 //
-// Possible repair: arm the timer before the descriptor is registered, or arm it under c.mux only
+// Status: repaired in /repo by 0949970 (the timer is armed under c.mux only while c.onConnected is
+// still pending); the test SKIPs since then. Original repair idea: arm before registering, or under c.mux only
 // while c.onConnected is still pending (takeOnConnected clears that field under the same mutex).
 package repro
 
@@ -72,20 +75,18 @@ func TestDialTimerArmedAfterConnect(t *testing.T) {
 		}
 	}()
 
-	const timeout = 200 * time.Millisecond
+	const timeout = 400 * time.Millisecond
 	var established sync.Map // *nbio.Conn -> time of the successful callback
 	var stale, racing, dials, oks int64
 	var first atomic.Value
 	g := nbio.NewEngine(nbio.Config{NPoller: 2})
 	g.OnClose(func(c *nbio.Conn, err error) {
 		if at, ok := established.Load(c); ok && errors.Is(err, nbio.ErrDialTimeout) {
-			if d := time.Since(at.(time.Time)); d > timeout/2 {
-				if atomic.AddInt64(&stale, 1) == 1 {
-					first.Store(d)
-				}
-			} else {
-				atomic.AddInt64(&racing, 1)
+			if atomic.AddInt64(&stale, 1) == 1 {
+				first.Store(time.Since(at.(time.Time)))
 			}
+		} else if errors.Is(err, nbio.ErrDialTimeout) {
+			atomic.AddInt64(&racing, 1)
 		}
 		established.Delete(c)
 	})
@@ -124,13 +125,14 @@ func TestDialTimerArmedAfterConnect(t *testing.T) {
 			for time.Now().Before(deadline) && atomic.LoadInt64(&stale) == 0 {
 				sem <- struct{}{}
 				atomic.AddInt64(&dials, 1)
+				called := time.Now()
 				err := g.DialAsyncTimeout("tcp", ln.Addr().String(), timeout, func(c *nbio.Conn, err error) {
 					if err != nil {
 						<-sem
 						return
 					}
 					atomic.AddInt64(&oks, 1)
-					if closed, _ := c.IsClosed(); !closed {
+					if closed, _ := c.IsClosed(); !closed && time.Since(called) < timeout/2 {
 						established.Store(c, time.Now())
 					}
 					// keep it open, idle, for one and a half dial timeouts; then close it ourselves
@@ -145,8 +147,8 @@ func TestDialTimerArmedAfterConnect(t *testing.T) {
 	wg.Wait()
 	time.Sleep(2 * timeout)
 	if n := atomic.LoadInt64(&stale); n > 0 {
-		t.Fatalf("%d established connection(s) were closed with %q, the first %v after its dial callback had reported success on an open connection (dial timeout %v; %d dials, %d successful, %d closes by a timeout racing with the connect)",
+		t.Fatalf("%d established connection(s) were closed with %q, the first %v after its dial callback had reported success on an open connection, less than half a dial timeout after the call (dial timeout %v; %d dials, %d successful, %d other dial-timeout closes)",
 			n, nbio.ErrDialTimeout, first.Load(), timeout, atomic.LoadInt64(&dials), atomic.LoadInt64(&oks), atomic.LoadInt64(&racing))
 	}
-	t.Skipf("window not hit in %v (%d dials, %d successful, %d closes by a timeout racing with the connect): inconclusive", budget, atomic.LoadInt64(&dials), atomic.LoadInt64(&oks), atomic.LoadInt64(&racing))
+	t.Skipf("window not hit in %v (%d dials, %d successful, %d other dial-timeout closes): inconclusive", budget, atomic.LoadInt64(&dials), atomic.LoadInt64(&oks), atomic.LoadInt64(&racing))
 }
